@@ -410,8 +410,17 @@ func (sh *SessionHandler) rpcRenewAndClearContract(s *session, log *zap.Logger) 
 		HostSignature:   sh.privateKey.SignHash(renewalSigHash),
 	}
 
-	// validate & broadcast the transaction
+	// the lock may have been acquired long ago: make sure the contract is
+	// still revisable before the signed renewal enters the transaction pool
 	renewalTxnSet = append(renewalParents, renewalTxn)
+	if err := sh.contracts.Revisable(s.contract.Revision.ParentID); err != nil {
+		sh.wallet.ReleaseInputs(renewalTxnSet, nil)
+		err = fmt.Errorf("failed to renew contract: %w", err)
+		s.t.WriteResponseErr(err)
+		return contracts.Usage{}, err
+	}
+
+	// validate & broadcast the transaction
 	if _, err = sh.chain.AddPoolTransactions(renewalTxnSet); err != nil {
 		sh.wallet.ReleaseInputs(renewalTxnSet, nil)
 		err = fmt.Errorf("failed to broadcast renewal transaction: %w", err)
